@@ -81,7 +81,7 @@ def _godriver(ctx, modfile, cases, timeout=900):
     outp = ctx.path("trace.ndjson")
     env = vlib.goenv()
     env.update(VERIF_SEED=str(ctx.seed), VERIF_TIER=ctx.tier, VERIF_SCRATCH=ctx.scratch, VERIF_IN=cases, VERIF_OUT=outp)
-    cmd = ["timeout", str(timeout), vlib.GO, "test", "-modfile=" + modfile, "-tags", "verif", "-count", "1", "-vet=off",
+    cmd = ["timeout", str(timeout), vlib.GO, "test", "-modfile=" + modfile, "-tags", "verif,x03hook", "-count", "1", "-vet=off",
            "-timeout", "%ds" % (timeout + 30), "-run", "TestX03", "-v", "./x03"]
     p = subprocess.run(cmd, cwd=vlib.HARNESS, env=env, stdout=subprocess.PIPE, stderr=subprocess.STDOUT, text=True, errors="replace")
     if p.returncode == 124:
@@ -182,7 +182,7 @@ def _selftest(ctx):
     fals = [("StepRule", 3, lambda r: r.update(k="freq", w=0)), ("StepRule", 1, lambda r: r.update(k="step", x=1)),
             ("StepAmount", 3, lambda r: r.update(x=-5)), ("StepAmount", 3, lambda r: r.update(x_eq=False)),
             ("SlewValue", 2, lambda r: r.update(w=16)), ("SlewValue", 4, lambda r: r.update(w=16)),
-            ("SlewValue", 2, lambda r: r.update(raw_ok=False)), ("Kind", 1, lambda r: r.update(nwrite=2)),
+            ("SlewValue", 2, lambda r: r.update(raw_ok=False)), ("Kind", 1, lambda r: r.update(nwrite=0, k="none")),
             ("Kind", 2, lambda r: r.update(k="other"))]
     trace, want = _pi_synth(1), set()
     for j, (clause, i, f) in enumerate(fals):
